@@ -134,7 +134,10 @@ Qed.
    `pair<A,B>` match the same text, the alternation keeps the pair form, which is listed first), variables (`T name ;`), includes (`#include <path>`), enumerations
    (`enum Name { A , B } ;`: the two-word keywords `enum class` / `enum struct` are tried on the same text and fail unless the
    name IS `class` / `struct` - `enum classy` is an enumeration named classy) and forward declarations (`class X ;`, which is
-   also a well-formed variable declaration: the alternation keeps the alternative listed first) inside namespaces nested to any depth (below the constructors' depth limit
+   also a well-formed variable declaration: the alternation keeps the alternative listed first), typedefs of template
+   instantiations and classes (`[virtual] class N [: ns::Base] { ... } ;` with constructors, methods, static methods,
+   properties and nested enumerations in any number and order: the repetition over the six-way member alternation takes one
+   member per round and stops at `}`; the constructor of the class node groups the members by kind) inside namespaces nested to any depth (below the constructors' depth limit
    of 200 levels) - printed with one blank before every token, come back from Module.parseString as exactly that tree:
    the namespace rule is chosen by the alternation (every other alternative fails on `namespace name {`: a function
    needs `(` after the name, a property `=` or `;`), its content is again a run of declarations that stops at the
